@@ -40,9 +40,22 @@ def St.want (s : St) : Nat :=
 def afterPayload (s : St) (r : PayloadResult) : St × List Action :=
   ({ s with flags := r.flags, phase := if r.open_ then .header else .closed }, r.actions)
 
+/-- `is_frame_header_invalid`: everything the header alone decides — unmasked frame to a server, RSV
+    bit without a negotiated extension, fragmented or oversized control frame, reserved opcode -/
+def headerInvalid (c : Conf) (f : Flags) (length : Nat) : Bool :=
+  if c.isServer && !f.mask then true
+  else if f.rsv ≠ 0 && !c.extAccepted then true
+  else if f.opcode ≥ opClose then
+    if !f.fin then true
+    else if length > wsSmallFrameSize then true
+    else if f.opcode > opPong then true
+    else false
+  else if f.opcode > opBinary then true
+  else false
+
 /-- `read_mask_or_payload` -/
 def readMaskOrPayload (c : Conf) (align : Nat) (s : St) : St × List Action :=
-  if s.flags.opcode ≥ opClose && s.length > wsSmallFrameSize then
+  if headerInvalid c s.flags s.length then
     ({ s with phase := .closed }, handleError c closeProtocolError)
   else if s.flags.mask then
     ({ s with phase := .mask }, [])
